@@ -462,8 +462,9 @@ class TrimWhitespaces(FullAstVisitor):
             if len(node.args.arguments) == 1 and not node.args.kwargs:
                 arg = node.args.arguments[0]
                 if isinstance(arg, mparser.ArrayNode):
-                    if (not arg.lbracket.whitespaces or not arg.lbracket.whitespaces.value.strip()) and \
-                            (not arg.rbracket.whitespaces or not arg.rbracket.whitespaces.value.strip()):
+                    # Everything dropped by the flattening must be free of comments
+                    dropped = [arg.lbracket, arg.rbracket, arg, node.args, *node.args.commas]
+                    if not any(n.whitespaces and n.whitespaces.value.strip() for n in dropped):
                         # files([...]) -> files(...)
                         node.args = arg.args
 
